@@ -113,9 +113,9 @@ def tas_only(be, ns, thorough):
 E2E = [
     ("tsvsum_vec_deq", "e2e_tsvsum_vec_deq", [2], [3, 4]),
     ("tsvsum_vec_ndrev", "e2e_tsvsum_vec_ndrev", [2], [3, 4]),
-    ("tsvmin_vec_deq", "e2e_tsvmin_vec_deq", [], [2, 3]),
+    ("tsvmin_vec_deq", "e2e_tsvmin_vec_deq", [3], [2]),            # N = 3 in the quick tier after seeded change C07-m2 (141 s)
     ("vshift_vec_deq", "e2e_vshift_vec_deq", [2], [3]),
-    ("vshift_vec_nd", "e2e_vshift_vec_nd", [], [2, 3]),        # 325 s measured at N = 2
+    ("vshift_vec_nd", "e2e_vshift_vec_nd", [], [2]),           # 325 s measured at N = 2; N = 3 ran the SAT back end out of memory (12 GB)
     ("agg_arr_deq_ndrev", "e2e_agg", [2], [3, 4]),
     ("agg_nd2_arc_nd", "e2e_agg2", [], [2, 3]),
     ("out_tsvsum_vec", "e2e_out_tsvsum_vec", [], [2, 3, 4]),
